@@ -481,6 +481,16 @@ C07PairRowClauses ==
       20 * Abs(Obs.curl["y"].A[x + 1][y + 1] - Obs.curl["y"].B[x + 1][y + 1]) <= RowMaxAbs(Obs.curl["y"].A, y) + 40, "y")
 
 --------------------------------------------------------------------------
+(* C05 pair: the same configuration at finecontour_Nfine = N (A) and 2N (B).  The discrepancy of hy*dy from the arc shrinks
+   quadratically: summed over the cells whose y-faces are both inside a region (the faces on region joins are taken from the
+   neighbouring region's contour, a separate recorded finding of ~1e-4 m that does not depend on Nfine) it falls by at least 2.5 *)
+C05PairClauses ==
+  LET Dom == {<<x, y>> \in XS \X YS : ~IsGuard(y) /\ y # RY0(RegY(y)) /\ y # LastRow(RegY(y))}
+      SA == SumOver(Dom, LAMBDA c : Abs(Obs.relerr.A[c[1] + 1][c[2] + 1]))
+      SB == SumOver(Dom, LAMBDA c : Abs(Obs.relerr.B[c[1] + 1][c[2] + 1]))
+  IN /\ ClauseAt("QuadraticInNfine", Obs.nfineB = 2 * Obs.nfineA /\ Dom # {} /\ 10 * SA >= 25 * SB, "refine")
+
+--------------------------------------------------------------------------
 Observe ==
   /\ stage = "file"
   /\ CASE Obs.prop = "C01" -> C01Clauses
@@ -490,7 +500,7 @@ Observe ==
        [] Obs.prop = "C09" -> C09Clauses
        [] Obs.prop = "C12" -> C12Clauses
        [] Obs.prop = "C16" -> C16Clauses
-       [] Obs.prop = "C05" -> C05Clauses
+       [] Obs.prop = "C05" -> IF "kind" \in DOMAIN Obs THEN C05PairClauses ELSE C05Clauses
        [] Obs.prop = "C10" -> C10Clauses
        [] Obs.prop = "C11" -> C11Clauses
        [] Obs.prop = "C04" -> C04Clauses
